@@ -45,7 +45,7 @@ def run_refactoring(sk, build_op, prop, check_imports=True, require_run_ok=True,
             after = apply_changes(files, changes)
         except rex.RopeError:
             end_of_path(sk, extra_reserved)
-            return None  # refused with rope's own error: accepted
+            return {"refused": True}  # refused with rope's own error: accepted
         except (PathAbort, Unsupported):
             raise
         except Exception as e:
